@@ -101,6 +101,7 @@ func main() {
 	}
 	if *impOn {
 		writeFile(filepath.Join(*out, "Imp.lean"), genImp())
+		writeFile(filepath.Join(*out, "ImpTrans.lean"), genImpTrans())
 	}
 	if len(errs) > 0 {
 		for _, e := range errs {
